@@ -15,10 +15,15 @@ import time
 
 VERIF = os.path.dirname(os.path.dirname(os.path.abspath(__file__)))
 REPO = os.environ.get('FINVERIF_REPO', '/repo')
-LEAN_DIR = os.path.join(VERIF, 'lean')
-CACHE = os.path.join(VERIF, '.cache')
-EVID = os.path.join(VERIF, 'evidence')
-REPLAYS = os.path.join(VERIF, 'replays')
+# FINVERIF_WORK (used only by tools/seedtest.py): a private copy of the lean project / output dirs, so that
+# a run against a patched scratch worktree does not share lean/FinVerif/Gen, evidence/ or replays/ with
+# runs against /repo.  The registered checks never set it.
+_WORK = os.environ.get('FINVERIF_WORK')
+LEAN_DIR = os.path.join(_WORK or VERIF, 'lean')
+CACHE = os.path.join(_WORK or VERIF, '.cache')
+EVID = os.path.join(_WORK or VERIF, 'evidence')
+REPLAYS = os.path.join(_WORK or VERIF, 'replays')
+NUMBA_BASE = os.path.join(VERIF, '.cache', 'numba')   # keyed by source hash: safe to share
 ALLOWED_AXIOMS = {'propext', 'Classical.choice', 'Quot.sound'}
 FORBIDDEN = re.compile(r'\b(sorry|admit|native_decide|bv_decide|implemented_by|unsafe)\b|^\s*axiom\s|maxHeartbeats\s+0\b')
 
@@ -44,7 +49,7 @@ def setup_numba_cache() -> str:
     """Numba's on-disk cache is keyed per defining file only; an edit to a callee in another file
     would leave a stale compiled caller.  Key the whole cache by the hash of every source file."""
     hsh = repo_hash()
-    base = os.path.join(CACHE, 'numba')
+    base = NUMBA_BASE
     d = os.path.join(base, hsh)
     os.makedirs(d, exist_ok=True)
     os.environ['NUMBA_CACHE_DIR'] = d
@@ -87,7 +92,7 @@ class Lock:
 def generate(modules):
     """Regenerate Gen/*.lean for `modules` from /repo.  Returns {module: status}."""
     cmd = [sys.executable, os.path.join(VERIF, 'tools', 'py2lean', 'gen.py')] + list(modules)
-    env = dict(os.environ, FINVERIF_REPO=REPO)
+    env = dict(os.environ, FINVERIF_REPO=REPO, FINVERIF_LEAN_DIR=LEAN_DIR, FINVERIF_CACHE=CACHE)
     subprocess.run(cmd, env=env, capture_output=True, text=True)
     st = json.load(open(os.path.join(CACHE, 'gen_status.json')))
     return {m: st.get(m, {'ok': False, 'error': 'no status'}) for m in modules}
@@ -292,7 +297,7 @@ def finish(ctx: Ctx, level: str, checker_cmd: str, trusted_base: list, rule: str
         path = write_replay(ctx, {'property': ctx.prop, 'kind': 'failing-input', 'seed': ctx.seed, 'tier': ctx.tier,
                                   'violation': v, 'all': ctx.violations[:20], 'broken': ctx.broken,
                                   'replay_cmd': f'./check {ctx.prop} --replay <this file>'})
-        lines.append(f'VIOLATION property={ctx.prop} replay={os.path.relpath(path, VERIF)}')
+        lines.append(f'VIOLATION property={ctx.prop} replay={os.path.relpath(path, _WORK or VERIF)}')
         rc = 1
     elif ctx.broken:
         path = write_replay(ctx, {'property': ctx.prop, 'kind': 'no-failing-input-found', 'seed': ctx.seed,
@@ -300,7 +305,7 @@ def finish(ctx: Ctx, level: str, checker_cmd: str, trusted_base: list, rule: str
                                   'note': 'a proof obligation or the model/implementation correspondence no longer '
                                           'checks; the search over model and implementation found no concrete '
                                           'failing input'})
-        lines.append(f'VIOLATION property={ctx.prop} replay={os.path.relpath(path, VERIF)} no-failing-input-found')
+        lines.append(f'VIOLATION property={ctx.prop} replay={os.path.relpath(path, _WORK or VERIF)} no-failing-input-found')
         rc = 1
     os.makedirs(EVID, exist_ok=True)
     cov = dict(ctx.cov)
